@@ -1,13 +1,16 @@
 #!/bin/sh
-# usage: tools/try_seed.sh <patch.diff> <tier> <PROP> [PROP...]   -- apply a seeded change to /repo, run the listed checks, undo.
+# usage: tools/try_seed.sh <patch.diff> <tier> <PROP> [PROP...]   -- apply a seeded change, run the listed checks, undo.
+# The change is applied to $SEED_REPO (default /repo; a scratch worktree of /repo when a long run is using /repo itself) and the checks
+# are pointed at it through OPENPINCH_REPO.
 set -u
 PATCH="$1"; TIER="$2"; shift 2
-cd /repo || exit 9
+R=${SEED_REPO:-/repo}
+cd "$R" || exit 9
 if [ -n "$(git status --porcelain -- OpenPinch)" ]; then echo "repo not clean"; exit 9; fi
 git apply "$PATCH" || { echo "patch does not apply"; exit 9; }
 cd /verif
 for P in "$@"; do
-  .venv/bin/python run.py "$P" --tier "$TIER" > /tmp/seed_$P.log 2>&1; rc=$?
+  OPENPINCH_REPO="$R" .venv/bin/python run.py "$P" --tier "$TIER" > /tmp/seed_$P.log 2>&1; rc=$?
   echo "== $P ($TIER) exit=$rc"; grep -v Warning /tmp/seed_$P.log | grep "VIOLATION\|INCONCLUSIVE\|KNOWN-FINDING\|^\[C" | cut -c1-260 | head -6
 done
-cd /repo && git checkout -- OpenPinch && git status --porcelain -- OpenPinch | head -2
+cd "$R" && git checkout -- OpenPinch && git status --porcelain -- OpenPinch | head -2
